@@ -522,6 +522,9 @@ func isTypeOfFor(name string, enabled bool) graphql.IsTypeOfFn {
 		return nil
 	}
 	return func(p graphql.IsTypeOfParams) bool {
+		if RunOf(p.Context) == nil {
+			return false // the caller's context did not reach this call: see resolveType
+		}
 		s, ok := p.Value.(*Src)
 		return ok && s != nil && (s.Rt == name || s.Rt == "*")
 	}
@@ -689,6 +692,11 @@ func Build(s *Schema) (*Built, error) {
 			}
 		}
 		s, ok := p.Value.(*Src)
+		if RunOf(p.Context) == nil {
+			// the caller's context did not reach the type resolver: a resolver that depends on it (a per-request
+			// registry, a deadline) cannot answer
+			return nil
+		}
 		if rc := RunOf(p.Context); rc != nil {
 			tc := TCall{P: pathStrings(p.Info.Path), V: "?"}
 			if ok && s != nil {
